@@ -235,6 +235,167 @@ Theorem C14_holds_cli_sound :
   forall k, holds_cli k = true ->
   holds_params (c_p k) = true /\
   (insufficient (c_p k) = true -> c_sim k = false /\ c_wrote k = false) /\
-  (forall o, c_o k = Some o -> holds_norep o = true).
+  (forall o, c_o k = Some o -> holds_norep o = true /\ holds_norep_smp o = true).
 Proof. exact holds_cli_sound. Qed.
 Print Assumptions C14_holds_cli_sound.
+
+(* ---- provenance named by the SAMPLE field: decides wide panels (no panel-wide uniqueness of alleles needed) *)
+Theorem C14_holds_norep_smp_sound :
+  forall k out sm,
+  holds_norep_smp k = true -> o_obs k = Ok out -> g_norep (o_cfg k) = true -> o_smp out = Some sm ->
+  forall j v, nth_error (o_vars out) j = Some v ->
+  forall h h', (h < h' < length (o_gt out))%nat ->
+  forall r a row a0 a1,
+    cellz (o_gt out) h j = Some a -> cellz (o_gt out) h' j = Some a ->
+    cellz sm h j = Some r -> cellz sm h' j = Some r ->
+    nthZ (g_data (o_cfg k)) r = Some row -> nthZ row v = Some (a0, a1) -> a0 <> a1 -> (a = a0 \/ a = a1) ->
+    False.
+Proof. exact holds_norep_smp_sound. Qed.
+Print Assumptions C14_holds_norep_smp_sound.
+
+(* the norep relation's checker is the conjunction of both readings *)
+Theorem C14_holds_norep_all_sound :
+  forall k, holds_norep_all k = true -> holds_norep k = true /\ holds_norep_smp k = true.
+Proof. exact holds_norep_all_sound. Qed.
+Print Assumptions C14_holds_norep_all_sound.
+
+(* the norep relation's model (C03's model + numpy's uint8 range check of population labels) IS C03's model
+   whenever no tract carries a label beyond 255 *)
+Theorem C14_model_norep_is_C03_below_256 :
+  forall c, (forall hap, In hap (g_bps c) -> forall s, In s hap -> pop s <= 255) -> output_vcf_w c = output_vcf c.
+Proof. exact output_vcf_w_eq. Qed.
+Print Assumptions C14_model_norep_is_C03_below_256.
+
+Theorem C14_label_overflow_example :
+  let hap := [mkseg 256 1 2147483647 0] in
+  hap_chrom_w true 300 [[(0, 1)]] hap 1 [] (mkds [(256, [0])] [[]; []] [] [] [[0]]) = Err E_Overflow /\
+  hap_chrom_w true 300 [[(0, 1)]] hap 1 [] (mkds [(256, [])] [[]; []] [] [] []) = Err E_Exception.
+Proof. exact overflow_example. Qed.
+Print Assumptions C14_label_overflow_example.
+
+(* ---- the whole run of output_vcf's _convert_haplotype calls; population tables that share samples -------- *)
+From HV Require Import C14_Run.
+
+(* the invariant of the table holds after ANY sequence of conversions (every simulated haplotype x every
+   chromosome), for ANY population table: nothing is assumed about t - the lists of different labels may
+   share reference samples (overlapping populations), list a sample twice, and are permuted by the shuffles *)
+Theorem C14_run_keeps_disjoint_any_table :
+  forall npop reqs t hu shuf bls t' hu' shuf',
+  InvAll hu -> conv_seq npop reqs t hu shuf = Ok (bls, t', hu', shuf') -> InvAll hu'.
+Proof. exact conv_seq_inv. Qed.
+Print Assumptions C14_run_keeps_disjoint_any_table.
+
+(* spelled out for one call on a table in which two labels list a common sample *)
+Theorem C14_convert_haplotype_inv_shared :
+  forall npop segs c start t hu shuf bl t' hu' shuf' l l',
+  shares_sample t l l' -> InvAll hu ->
+  conv_norep false npop segs c start t hu shuf = Ok (bl, t', hu', shuf') -> InvAll hu'.
+Proof. exact conv_norep_inv_shared. Qed.
+Print Assumptions C14_convert_haplotype_inv_shared.
+
+(* from the empty table: what the run's blocks say was copied - (reference haplotype, chromosome, first, last
+   position) per block - is pairwise position-disjoint per reference haplotype, all of it is in the final table,
+   and the final table satisfies the invariant *)
+Theorem C14_run_no_reuse :
+  forall npop reqs t n shuf bls t' hu' shuf',
+  conv_seq npop reqs t (init_used n) shuf = Ok (bls, t', hu', shuf') ->
+  NoShare (all_regs reqs bls) /\ Covers hu' (all_regs reqs bls) /\ InvAll hu'.
+Proof. exact run_no_reuse. Qed.
+Print Assumptions C14_run_no_reuse.
+
+Theorem C14_run_no_position_twice :
+  forall npop reqs t n shuf bls t' hu' shuf',
+  conv_seq npop reqs t (init_used n) shuf = Ok (bls, t', hu', shuf') ->
+  forall i j h c a b h' c' a' b', i <> j ->
+  nth_error (all_regs reqs bls) i = Some (h, (c, a, b)) ->
+  nth_error (all_regs reqs bls) j = Some (h', (c', a', b')) ->
+  h = h' -> c = c' -> forall p, ~ (a <= p <= b /\ a' <= p <= b').
+Proof. exact run_no_position_twice. Qed.
+Print Assumptions C14_run_no_position_twice.
+
+(* hypotheses satisfiable, and the sharing matters: labels 1 and 2 both list sample 0 only; the block of label 2
+   gets strand 1 because strand 0 went to the block of label 1; a third request is refused *)
+Theorem C14_shared_sample_example :
+  let t := [(1, [0]); (2, [0])] in
+  shares_sample t 1 2 /\
+  conv_seq 3 [mkreq [mkseg 1 1 100 0] 1; mkreq [mkseg 2 1 100 0] 1] t (init_used 2) [[0]; [0]]
+    = Ok ([[mkb 100 1 0 0]; [mkb 100 2 0 1]], t, [[(1, 0, 100)]; [(1, 0, 100)]], []) /\
+  conv_seq 3 [mkreq [mkseg 1 1 100 0] 1; mkreq [mkseg 2 1 100 0] 1; mkreq [mkseg 1 1 50 0] 1] t (init_used 2)
+    [[0]; [0]; [0]] = Err E_Exception.
+Proof. exact shared_sample_example. Qed.
+Print Assumptions C14_shared_sample_example.
+
+(* a conversion whose first tract finds every haplotype of the listed samples occupied raises Exception,
+   for any table (shared or not) *)
+Theorem C14_convert_exhausted_errors :
+  forall npop s r c start t hu perm shuf lst,
+  (pop s <? 0) || (npop <=? pop s) = false ->
+  pt_get t (pop s) = Some lst -> lst <> [] ->
+  (forall x, In x perm -> 0 <= x /\ forall h, h = 0 \/ h = 1 ->
+     exists cur : used, nthZ hu (2 * x + h) = Some cur /\ existsb (overlaps false c start (endc s)) cur = true) ->
+  conv_norep false npop (s :: r) c start t hu (perm :: shuf) = Err E_Exception.
+Proof. exact conv_norep_exhausted. Qed.
+Print Assumptions C14_convert_exhausted_errors.
+
+(* ---- the property at the level of output_vcf's output (model) ------------------------------------------ *)
+From HV Require Import C03_Proofs C03_ProofsE2E C14_RunVcf.
+
+(* output_vcf(no_replacement=True) completes only if the run of its conversions from the empty table does;
+   that run re-uses nothing *)
+Theorem C14_output_vcf_is_a_run :
+  forall (g : config) (out : output),
+  output_vcf g = Ok out -> g_norep g = true -> NoDup (g_chroms g) -> covered_cfg g ->
+  exists bls t' hu' sh',
+    conv_seq (g_npop g) (run_reqs (g_chroms g) (g_bps g)) (g_tab g) (init_used (2 * g_nref g)) (g_shuf g)
+      = Ok (bls, t', hu', sh') /\
+    NoShare (all_regs (run_reqs (g_chroms g) (g_bps g)) bls) /\ InvAll hu'.
+Proof. exact output_vcf_is_a_run. Qed.
+Print Assumptions C14_output_vcf_is_a_run.
+
+(* no_position_twice at output level: two simulated haplotypes never take a written record's allele from the
+   same reference haplotype - for every sample-info table (populations may share samples), all breakpoints
+   covering the variants read, all shuffles *)
+Theorem C14_output_no_reuse :
+  forall (g : config) (out : output),
+  output_vcf g = Ok out -> g_norep g = true -> NoDup (g_chroms g) -> covered_cfg g ->
+  forall h h' hap hap', (h < h')%nat ->
+  nth_error (g_bps g) h = Some hap -> nth_error (g_bps g) h' = Some hap' ->
+  forall c, In c (g_chroms g) ->
+  forall i oidx v, nth_error (ov_of g) i = Some (oidx, v) -> on_chrom (cur_chr_of g) c v = true -> 0 <= rv_pos v ->
+  exists r u r' u' a a',
+    2 * r + u <> 2 * r' + u' /\ (u = 0 \/ u = 1) /\ (u' = 0 \/ u' = 1) /\
+    lookup (g_data g) r oidx u = Some a /\ lookup (g_data g) r' oidx u' = Some a' /\
+    cell_at (o_gt out) h i = Some (Some a) /\ cell_at (o_gt out) h' i = Some (Some a') /\
+    (forall m, o_smp out = Some m -> cell_at m h i = Some (Some r) /\ cell_at m h' i = Some (Some r')).
+Proof. exact output_no_reuse. Qed.
+Print Assumptions C14_output_no_reuse.
+
+(* ... so over a variant that identifies the reference haplotypes the two alleles differ: the model satisfies
+   the clause the norep / cli relations evaluate on the implementation's output *)
+Theorem C14_output_alleles_differ :
+  forall (g : config) (out : output),
+  output_vcf g = Ok out -> g_norep g = true -> NoDup (g_chroms g) -> covered_cfg g ->
+  forall h h' hap hap', (h < h')%nat ->
+  nth_error (g_bps g) h = Some hap -> nth_error (g_bps g) h' = Some hap' ->
+  forall c, In c (g_chroms g) ->
+  forall i oidx v, nth_error (ov_of g) i = Some (oidx, v) -> on_chrom (cur_chr_of g) c v = true -> 0 <= rv_pos v ->
+  identifiable (g_data g) oidx = true ->
+  exists a a', a <> a' /\ cell_at (o_gt out) h i = Some (Some a) /\ cell_at (o_gt out) h' i = Some (Some a').
+Proof. exact output_alleles_differ. Qed.
+Print Assumptions C14_output_alleles_differ.
+
+(* hypotheses satisfiable on a panel whose two populations both list reference sample 0 *)
+Theorem C14_output_no_reuse_example :
+  output_vcf ex_shared = Ok (mkout [0] [[Some 0]; [Some 1]] None (Some [[Some 0]; [Some 0]])) /\
+  g_norep ex_shared = true /\ NoDup (g_chroms ex_shared) /\ covered_cfg ex_shared /\
+  identifiable (g_data ex_shared) 0 = true.
+Proof. exact output_no_reuse_example. Qed.
+Print Assumptions C14_output_no_reuse_example.
+
+(* an unsatisfiable shared panel (one sample for both populations, four haplotypes) is refused *)
+Theorem C14_shared_panel_exhausted :
+  output_vcf (mkcfg [1] 3 [(1, [0]); (2, [0])] [mkrv false 1 50] [[(0, 1)]; [(2, 3)]] 2 None false false true false
+                    [[mkseg 1 1 2147483647 0]; [mkseg 2 1 2147483647 0]; [mkseg 1 1 2147483647 0]; [mkseg 2 1 2147483647 0]]
+                    [] [] [[0]; [0]; [0]; [0]]) = Err E_Exception.
+Proof. exact shared_panel_exhausted. Qed.
+Print Assumptions C14_shared_panel_exhausted.
